@@ -350,6 +350,8 @@ func (a *Real32) SetVariable(i, n, order int) error {
     return fmt.Errorf("order `%d' not supported by this type", order)
   }
   a.Alloc(n, order)
+  // Alloc keeps the old derivatives if n and order did not change
+  a.ResetDerivatives()
   if order > 0 {
     a.Derivative[i] = 1
   }
